@@ -571,6 +571,10 @@ fn run_scripted(step: u64, kind: u64, shape: u64, trace: bool) -> CaseResult {
         if host_conflict && fh[0] != b"myhost-2" {
             res.viols.push(viol("C08|unexpected-new-host-name", format!("{tag}: {}", show_name(&fh))));
         }
+        // under its final names the service is announced at least twice, one second apart
+        if fin.announcements < 2 {
+            res.viols.push(viol("C08|service-announced-only-once-after-the-conflict", format!("{tag}: {} announcement(s) carrying PTR, SRV and address in 6 s", fin.announcements)));
+        }
         // lost comparison: probe again 1 s later, three probes
         if kind == 4 {
             let probes: Vec<u64> = outs(&w, 0, 0).iter().filter(|(_, o)| o.msg.as_ref().is_ok_and(|m| !m.is_response() && asks(m, &host, T_ANY))).map(|(t, _)| *t - T0).collect();
